@@ -114,6 +114,9 @@ func (g *G) genAction(f *FlowSpec, nd *nodeDraft, loc J) J {
 		"call_resthook", "call_classifier", "transfer_airtime", "start_session", "send_broadcast", "add_input_labels", "request_optin",
 	}
 	kind := kinds[t.Pick("actionkind", len(kinds))]
+	if kind == "transfer_airtime" && g.P.NoAirtime {
+		kind = "set_run_result"
+	}
 	if f.Type == "voice" && t.Chance("voiceaction", 1, 2) {
 		kind = []string{"say_msg", "play_audio"}[t.Pick("voicekind", 2)]
 	}
